@@ -110,6 +110,40 @@ func verifNoPanicCompressed(alg int) {
 	nd.Assert(err != nil || body != nil, "DecodeBody of a compressed body returns a body or an error")
 }
 
+// the body length a header declares is wire data too: every 32-bit value (negative ones included) against a short
+// source, through each operation that takes a decoded header
+func verifNoPanicDeclaredLength(op int) {
+	nd.AllocBound(8)
+	b := nd.Bytes("body", 6)
+	flags := primitive.HeaderFlag(0)
+	var c RawCodec = NewRawCodec()
+	if op >= 3 {
+		flags = primitive.HeaderFlagCompressed
+		if op == 3 {
+			c = NewRawCodecWithCompression(lz4.Compressor{})
+		} else {
+			c = NewRawCodecWithCompression(snappy.Compressor{})
+		}
+	}
+	h := &Header{Version: primitive.ProtocolVersion4, OpCode: primitive.OpCodeOptions, Flags: flags, BodyLength: nd.Int32("declared body length")}
+	switch op {
+	case 0, 3, 4:
+		c.DecodeBody(h, bytes.NewReader(b))
+	case 1:
+		c.DecodeRawBody(h, bytes.NewReader(b))
+	case 2:
+		c.DiscardBody(h, bytes.NewBuffer(b))
+		c.DiscardBody(h, bytes.NewReader(b))
+	}
+	nd.Assert(true, "returned")
+}
+
+func VerifC04_NoPanic_DeclaredLength_DecodeBody()       { verifNoPanicDeclaredLength(0) }
+func VerifC04_NoPanic_DeclaredLength_DecodeRawBody()    { verifNoPanicDeclaredLength(1) }
+func VerifC04_NoPanic_DeclaredLength_DiscardBody()      { verifNoPanicDeclaredLength(2) }
+func VerifC04_NoPanic_DeclaredLength_DecodeBodyLZ4()    { verifNoPanicDeclaredLength(3) }
+func VerifC04_NoPanic_DeclaredLength_DecodeBodySnappy() { verifNoPanicDeclaredLength(4) }
+
 func VerifC04_NoPanic_CompressedBody_LZ4()    { verifNoPanicCompressed(0) }
 func VerifC04_NoPanic_CompressedBody_Snappy() { verifNoPanicCompressed(1) }
 
